@@ -208,6 +208,14 @@ static void PutADR(Word Value) {
     }
 }
 
+/* for targets that use DecodeMotoADR() without going through
+   DecodeMotoPseudo(): the byte order must not be whatever the previously
+   assembled target left behind */
+
+void SetMoto16Turn(Boolean Turn) {
+    M16Turn = Turn;
+}
+
 void DecodeMotoADR(Word Index) {
     UNUSED(Index);
 
